@@ -21,4 +21,5 @@ REGISTRY = {
     'C15': e2props.c15,
     'C02': e2props.c02,
     'C11': e2props.c11,
+    'C12': e2props.c12,
 }
